@@ -389,9 +389,78 @@ void overflowCase(Ctx& c, long j)
     c.count("reassembly_totals_beyond_65535");
 }
 
+// typed payloads at their structural boundaries, as the LAST message of a frame that ends exactly with the payload
+// (so that a validator or accessor reading one byte too far leaves the caller's buffer): every truncation of a
+// consistent payload and every inner length field on a value lattice
+constexpr long kTypedBoundaryCases = 7 * 16;
+void typedBoundaryCase(Ctx& c, long j)
+{
+    static const Kind kinds[7] = {K_CAN, K_CANFD, K_LIN, K_ETH, K_ANALOG, K_CM, K_IF};
+    Kind kd = kinds[j % 7];
+    long variant = j / 7;
+    Rng r = c.fixedRng(j, 29);
+    Session s{c};
+    Bytes base = genPayload(kd, kindMinLen(kd) + static_cast<size_t>(variant) * 3 + r.below(3), r);
+    if (kd == K_IF)
+    {
+        // odd and even stream-id counts, with and without vendor data
+        wire::If f;
+        f.interfaceStatus = static_cast<uint8_t>(r.below(3));
+        f.streamIds = r.bytes(static_cast<size_t>(variant));
+        f.vendorData = r.bytes((variant % 4 == 3) ? r.range(1, 6) : 0);
+        base = f.serialize();
+    }
+    uint8_t mt = kindMsgType(kd, r);
+    uint8_t pt = kindPayloadType(kd, r);
+    auto frameOf = [&](const Bytes& payload, bool withPrefixMessage) {
+        std::vector<GMsg> ms;
+        if (withPrefixMessage)
+        {
+            uint8_t dummy;
+            ms.push_back(genMsg(r, kd, 1, dummy));
+        }
+        GMsg m;
+        m.ts = r.next();
+        m.idWord = static_cast<uint32_t>(r.next());
+        m.ptype = pt;
+        m.payload = payload;
+        ms.push_back(m);
+        return buildFrame(1, 1, mt, 0, static_cast<uint16_t>(r.next()), ms);
+    };
+    for (size_t n = 0; n <= base.size(); ++n)
+    {
+        Bytes t(base.begin(), base.begin() + static_cast<long>(n));
+        if (t.empty())
+            continue;
+        s.feed(frameOf(t, n % 2));
+    }
+    for (auto& lf : lengthFieldsOf(kd, base))
+    {
+        size_t rem = base.size() - (lf.first + static_cast<size_t>(lf.second));
+        for (uint32_t v : lengthLattice(lf.second, rem, false))
+        {
+            Bytes m = base;
+            if (lf.second == 1)
+                m[lf.first] = static_cast<uint8_t>(v);
+            else
+                wire::set16(m.data() + lf.first, static_cast<uint16_t>(v));
+            s.feed(frameOf(m, false));
+            // and with the tail cut so that the field points just past what is left
+            if (m.size() > lf.first + static_cast<size_t>(lf.second) + 1 && (v % 3 == 0))
+            {
+                m.resize(lf.first + static_cast<size_t>(lf.second) + (v % (rem + 1)));
+                s.feed(frameOf(m, false));
+            }
+        }
+    }
+    s.finish();
+    c.sig(mix64(0x7b0d, static_cast<uint64_t>(j)));
+    c.count("typed_boundary_cases");
+}
+
 long c02Count(Ctx& c)
 {
-    return static_cast<long>(canon().size()) * (kFieldsPerFrame + 1) + 256 + kOverflowCases + (c.thorough() ? 250000 : 3000);
+    return static_cast<long>(canon().size()) * (kFieldsPerFrame + 1) + 256 + kOverflowCases + kTypedBoundaryCases + (c.thorough() ? 250000 : 3000);
 }
 void c02Run(Ctx& c, long idx)
 {
@@ -404,7 +473,10 @@ void c02Run(Ctx& c, long idx)
     idx -= 256;
     if (idx < kOverflowCases)
         return overflowCase(c, idx);
-    randomHistory(c, idx + nc + 256 + kOverflowCases);
+    idx -= kOverflowCases;
+    if (idx < kTypedBoundaryCases)
+        return typedBoundaryCase(c, idx);
+    randomHistory(c, idx + nc + 256 + kOverflowCases + kTypedBoundaryCases);
 }
 
 // -------------------------------------------------------------------------------------------------
